@@ -335,14 +335,35 @@ pub fn gen_cfg_for(prop: &str, rng: &mut Rng, thorough: bool) -> GenCfg {
             cfg.p_open_end = 0.4;
             // the reported tag must be the one of the place used: half of the problems tag the places of multi-place tasks
             // sparsely (an untagged place in front of a tagged one), which no reader of the solution needs to be dense
-            if rng.chance(0.5) {
-                cfg.always_tag = false;
-                cfg.p_place_tag = 0.5;
-            }
+            cfg.sparse_place_tags = rng.chance(0.5);
         }
         _ => {}
     }
     cfg
+}
+
+/// Rewrites about half of the `...Z` timestamps of a problem document into the same instant with another UTC offset.
+pub fn rewrite_times_with_offsets(rng: &mut Rng, v: &mut Value) -> usize {
+    match v {
+        Value::String(text) => {
+            if text.len() == 20 && text.ends_with('Z') && rng.chance(0.5) {
+                if let Some(t) = crate::timeutil::parse_time(text) {
+                    // mostly offsets of a few minutes - the time scale of the generated tours - so that a misread window still
+                    // overlaps the shift and gets used
+                    let (off, suffix) = *rng.pick(&[(60i64, "+00:01"), (-120, "-00:02"), (180, "+00:03"), (-60, "-00:01"), (7_200, "+02:00"), (0, "+00:00")]);
+                    let local = crate::timeutil::fmt_time(t + off);
+                    *text = format!("{}{suffix}", local.trim_end_matches('Z'));
+                    return 1;
+                }
+            }
+            0
+        }
+        Value::Array(a) => a.iter_mut().map(|c| rewrite_times_with_offsets(rng, c)).sum(),
+        // the shift start is left alone: rule E1307 compares `start.earliest` and `start.latest` as TEXT (observed: the same
+        // instant in two notations is rejected there - validation is C10's subject, not C03's)
+        Value::Object(m) => m.iter_mut().filter(|(k, _)| k.as_str() != "start").map(|(_, c)| rewrite_times_with_offsets(rng, c)).sum(),
+        _ => 0,
+    }
 }
 
 /// The C01/C02/C03 workload. Every solve is judged by O1; only issues of `prop` are reported by this run.
@@ -365,6 +386,11 @@ pub fn run_end_to_end(run: &Run, prop: &'static str) {
             if let Some(c) = gp.to_coordinates(&grid) {
                 gp = c;
             }
+        }
+        // C03: the same instants written with a UTC offset other than Z (RFC 3339 allows both; solutions are always written
+        // with Z): a reader which keeps the local time of day instead of the instant shifts every such window
+        if prop == "C03" && rng.chance(0.3) && rewrite_times_with_offsets(&mut rng, &mut gp.problem) > 0 {
+            gp.features.insert("time-offsets".into());
         }
         let (config, shape) = gen_config(&mut rng, max_gens, None);
         let problem = match read_problem(&gp) {
